@@ -33,19 +33,33 @@ class HubMode(vlib.Mode):
         for _ in range(n):
             ntop = rng.choice([1, 2, 3])
             tops = rng.sample(TOPICS, ntop)
-            case, regs, seq = [], 0, 0
+            case, regs, seq, regtopics = [], 0, 0, []
             for _ in range(rng.choice([6, 12, 24, 40])):
                 r = rng.random()
                 if regs == 0 or r < 0.2:
                     rw = rng.choice([(1, 1), (1, 1), (1, 0), (0, 1), (0, 0)])
-                    case.append(f"reg {hx(rng.choice(tops))} {hx(rng.choice(BIDS))} {rw[0]} {rw[1]} {rng.choice([1, 1, 2, 3, 8])}")
-                    regs += 1
+                    tp = rng.choice(tops)
+                    case.append(f"reg {hx(tp)} {hx(rng.choice(BIDS))} {rw[0]} {rw[1]} {rng.choice([1, 1, 2, 3, 8])}")
+                    regs += 1; regtopics.append(tp)
                 elif r < 0.62:
                     k = rng.randrange(regs + (1 if rng.random() < 0.05 else 0))
                     ln = rng.choice([0, 1, 2, 5])
                     data = bytes([k % 256, seq % 256] + [rng.randrange(256) for _ in range(ln)]) if rng.random() < 0.95 else b""
                     seq += 1
                     case.append(f"in n{k} {hx(data)} {rng.choice([1, 2])}")
+                elif r < 0.68 and len(set(regtopics)) >= 2:
+                    # frames of writers on pairwise DIFFERENT topics queued at the same instant (hub momentarily busy); same-topic
+                    # senders are not mixed in one burst: a frame already in flight from a reader that the burst itself drops
+                    # is legitimately still relayed by the real hub, which the sequential model does not represent
+                    ks, seen_t = [], set()
+                    for k in rng.sample(range(regs), regs):
+                        if regtopics[k] not in seen_t: ks.append(k); seen_t.add(regtopics[k])
+                    ks = ks[:rng.choice([2, 2, 3])]
+                    items = []
+                    for k in ks:
+                        seq += 1
+                        items.append(f"n{k}:{hx(bytes([k % 256, seq % 256, 0xEE]))}")
+                    case.append("burst " + ",".join(items))
                 elif r < 0.9:
                     case.append(f"drain n{rng.randrange(regs)} {rng.choice([0, 0, 1, 2, 7])}")
                 else:
@@ -83,6 +97,16 @@ class HubMode(vlib.Mode):
                             if c["member"] and j != k and c["topic"] == s["topic"]:
                                 if len(c["q"]) < c["cap"]: c["q"].append(data); st["delivered"] += 1
                                 else: c["member"] = False; c["q"] = []; st["evicted"] += 1
+            elif f[0] == "burst":
+                for item in f[1].split(","):
+                    nk, dat = item.split(":")
+                    k, data = int(nk[1:]), vlib.unhx(dat)
+                    if k < len(clients) and clients[k]["member"] and clients[k]["w"]:
+                        s = clients[k]
+                        for j, c in enumerate(clients):
+                            if c["member"] and j != k and c["topic"] == s["topic"]:
+                                if len(c["q"]) < c["cap"]: c["q"].append(data); st["delivered"] += 1
+                                else: c["member"] = False; c["q"] = []; st["evicted"] += 1
             elif f[0] == "drain":
                 k, kk = int(f[1][1:]), int(f[2])
                 exp = "none"
@@ -111,6 +135,8 @@ class HubMode(vlib.Mode):
 
     def _classify(self, clients, mem, expm, f):
         sender = int(f[1][1:]) if f[0] == "in" else None
+        if f[0] == "burst":
+            return ("C03", "burst-delivered-to-wrong-topic-or-sender")
         for j, (t, q) in mem.items():
             if j in expm and q > expm[j][1]:
                 if sender is not None and sender < len(clients):
